@@ -16,6 +16,7 @@ def check(prog, rep):
     Z.check_cursors(rep, numpy_side, 'C02', entry, prog=prog)
     Z.check_zone_labels(prog, rep, [f for f in fs if f.name in ('_stats_numpy',)], entry)
     Z.check_validity(prog, rep, numpy_side, entry)
+    Z.check_selection(prog, rep, fs, entry, 'zone_ids')
     Z.check_unique_zones(prog, rep, fs, entry)
     Z.check_index_space(prog, rep, fs, entry)
     Z.check_nan_results(prog, rep, fs, entry)
